@@ -526,6 +526,9 @@ func Run(sc Scenario) *Outcome {
 				continue
 			}
 			yield(pr)
+			if sc.Peer.Pace > 0 {
+				time.Sleep(time.Duration(sc.Peer.Pace) * time.Microsecond)
+			}
 			tr.log("pframe p=%d z=%d", id, n)
 			peer.SetWriteDeadline(time.Now().Add(Deadline))
 			if _, err := peer.Write(raw); err != nil {
@@ -794,6 +797,9 @@ func Run(sc Scenario) *Outcome {
 				defer actors.Done()
 				if !ph.wait(s.When, abort) {
 					return
+				}
+				if s.Delay > 0 {
+					time.Sleep(time.Duration(s.Delay) * time.Microsecond)
 				}
 				runSender(i, s, s.Sizes, 0)
 				if s.When == "" || s.When == "start" {
